@@ -197,6 +197,68 @@ def attempted_length(m, op):
     return None
 
 
+def container_step(m, ckind, ikind, bounds, op):
+    """Apply a C05/C06/C07-style op to the model container ``m`` of item
+    kind(s) ``ikind`` with optional length ``bounds``.  Returns (ret, allowed
+    exception names or None for success, at_bound flag); ``m`` is mutated only
+    on success."""
+    k = op["k"]
+    allowed = set()
+    at_bound = False
+    if ckind == "list":
+        trial = list(m)
+        ret, val_exc, list_exc = c05.PROP.model_apply(trial, op, convfn(ikind[0]))
+        if bounds:
+            att = attempted_length(m, op)
+            if att is not None and not (bounds[0] <= att <= bounds[1]):
+                allowed.add("TraitError")
+                at_bound = True
+        if val_exc:
+            allowed.add(val_exc)
+        if list_exc:
+            allowed.add(list_exc)
+        if op.get("noniter"):
+            allowed.add("TypeError")      # ill-formed in two ways: either complaint
+        if "iter_raise_at" in op:
+            # TraitListObject materialises the iterable before validating:
+            # whichever failure comes first in either order is acceptable
+            allowed.add(op["iter_exc"])
+            for sp in op["vs"]:
+                try:
+                    conv(ikind[0], raw(sp))
+                except ModelTraitError:
+                    allowed.add("TraitError")
+        if not allowed:
+            m[:] = trial
+    elif ckind == "dict":
+        trial = dict(m)
+        ret, val_exc, dict_exc = c06.PROP.model_apply(trial, op, convfn(ikind[0]),
+                                                      convfn(ikind[1]))
+        if val_exc:
+            allowed.add(val_exc)
+        if dict_exc:
+            allowed.add(dict_exc)
+        if not allowed:
+            m.clear()
+            m.update(trial)
+    else:
+        ret = None
+        if k == "pop":
+            if not m:
+                allowed.add("KeyError")
+        else:
+            trial = set(m)
+            val_exc, set_exc = c07.PROP.model_apply(trial, op, convfn(ikind[0]))
+            if val_exc:
+                allowed.add(val_exc)
+            if set_exc:
+                allowed.add(set_exc)
+            if not allowed:
+                m.clear()
+                m.update(trial)
+    return ret, (allowed or None), at_bound
+
+
 class Prop:
     ID = ID
     LEVEL = "exploration"
@@ -374,60 +436,7 @@ class Prop:
                 return None, {"TraitError", "TypeError"}, False
             model[on] = new
             return None, None, False
-        allowed = set()
-        at_bound = False
-        if ckind == "list":
-            trial = list(m)
-            ret, val_exc, list_exc = c05.PROP.model_apply(trial, op, convfn(ikind[0]))
-            if bounds:
-                att = attempted_length(m, op)
-                if att is not None and not (bounds[0] <= att <= bounds[1]):
-                    allowed.add("TraitError")
-                    at_bound = True
-            if val_exc:
-                allowed.add(val_exc)
-            if list_exc:
-                allowed.add(list_exc)
-            if op.get("noniter"):
-                allowed.add("TypeError")      # ill-formed in two ways: either complaint
-            if "iter_raise_at" in op:
-                # TraitListObject materialises the iterable before validating:
-                # whichever failure comes first in either order is acceptable
-                allowed.add(op["iter_exc"])
-                for sp in op["vs"]:
-                    try:
-                        conv(ikind[0], raw(sp))
-                    except ModelTraitError:
-                        allowed.add("TraitError")
-            if not allowed:
-                m[:] = trial
-        elif ckind == "dict":
-            trial = dict(m)
-            ret, val_exc, dict_exc = c06.PROP.model_apply(trial, op, convfn(ikind[0]),
-                                                          convfn(ikind[1]))
-            if val_exc:
-                allowed.add(val_exc)
-            if dict_exc:
-                allowed.add(dict_exc)
-            if not allowed:
-                m.clear()
-                m.update(trial)
-        else:
-            ret = None
-            if k == "pop":
-                if not m:
-                    allowed.add("KeyError")
-            else:
-                trial = set(m)
-                val_exc, set_exc = c07.PROP.model_apply(trial, op, convfn(ikind[0]))
-                if val_exc:
-                    allowed.add(val_exc)
-                if set_exc:
-                    allowed.add(set_exc)
-                if not allowed:
-                    m.clear()
-                    m.update(trial)
-        return ret, (allowed or None), at_bound
+        return container_step(m, ckind, ikind, bounds, op)
 
     # ------------------------------------------------------------------ execution
     @staticmethod
